@@ -92,6 +92,16 @@ def trace_terms(recs, cfgs=None):
                     first[call[1]] = k
         order = lambda i: (first.get(i, 1 << 30), i)
         if new_seg:
+            # a configuration update may make several passes over the grants (attempt, fallback, revert);
+            # the state dumped after the request is the result of the LAST pass, whose reinstatement order
+            # (Go map order) is the order of the last applyGrant of each container
+            last = {}
+            for k, call in enumerate(rec.get('calls') or []):
+                if call[0] == 'SetCPUShares':
+                    last[call[1]] = k
+            # a grant that no pass applied was carried over from the saved allocations (failed update whose
+            # revert failed too): it precedes the ones this request reinstated
+            order = lambda i: (last.get(i, -1), i)
             tterm, idx = tree_term(ta['pools'])
             cur = dict(tree=tterm, idx=idx, sig=pools_sig(ta), groups=[])
             segs.append(cur)
